@@ -1,4 +1,5 @@
 import S2T.Lemmas.Wrapper
+import S2T.Lemmas.WrapperBeh
 import S2T.Gen.Exceptions
 import S2T.Gen.Wrappers
 import S2T.Gen.Loops
@@ -114,6 +115,65 @@ theorem C01_read_file (otherSub : String → String → Bool) (tr : List Ch) (e 
     simp only [Abs.mem] at hmem
     simp only [onlyFamily, hmem] at hdec
     cases hdec
+
+/-! ## CLI discipline
+
+`cli_main = argument handling ; try <everything that touches the file> except Exception: …`.
+`cliBody` is the last statement of the function (the `try`), `cliPrefix` what precedes it (parser
+construction and argument errors — no input file involved). -/
+
+def lastOf : Stmt → Stmt
+  | .seq _ b => lastOf b
+  | s => s
+
+def prefixOf : Stmt → Stmt
+  | .seq a b => match b with
+    | .seq _ _ => .seq a (prefixOf b)
+    | _ => a
+  | _ => .atom "skip" true
+
+def cliBody : Stmt := lastOf cli_main
+def cliPrefix : Stmt := prefixOf cli_main
+
+/-- the two outcomes the property allows for an input file -/
+def cliAllowed (b : Beh) : Bool :=
+  (b.k == .ret "0" && b.o ≥ 1 && b.e == 0) || (b.k == .ret "1" && b.o == 0 && b.e == 1)
+
+/-- decided on the current skeleton: every abstract behaviour of the file-handling part of
+    `cli.main` is one of the two allowed ones -/
+theorem cli_decided : (behav root isFam [] cliBody).all cliAllowed = true := by decide
+
+/-- argument handling never writes to stdout -/
+theorem cli_prefix_silent : (behav root isFam [] cliPrefix).all (fun b => b.o == 0) = true := by decide
+
+/-- **C01 (CLI)**: whatever the extractors and serialisers do (complete or raise anything, at any
+    point), a run of the file-handling part of `cli.main` either returns 0 having written to stdout
+    and nothing to stderr, or returns 1 having written nothing to stdout and exactly one message to
+    stderr.  (Before the fix `35d0ebd` the skeleton contained a stdout write that could fail after a
+    partial write, and `cli_decided` is false for it.) -/
+theorem C01_cli (otherSub : String → String → Bool) (tr : List Ch) (o : Out)
+    (hex : Exec (hier otherSub) isFam root none cliBody tr o) :
+    (o = .ret "0" ∧ 1 ≤ countCh .out tr ∧ countCh .err tr = 0) ∨
+    (o = .ret "1" ∧ countCh .out tr = 0 ∧ countCh .err tr = 1) := by
+  have hb := behav_sound (hier_ok otherSub) hex [] (by simp [CurK]) (by intro e0 h; cases h)
+  have hall := List.all_eq_true.mp cli_decided _ hb
+  simp only [cliAllowed, behOf, Bool.or_eq_true, Bool.and_eq_true, beq_iff_eq, decide_eq_true_eq] at hall
+  have sat0 : ∀ n, sat n = 0 → n = 0 := by intro n h; unfold sat at h; split at h <;> omega
+  have sat1 : ∀ n, sat n = 1 → n = 1 := by intro n h; unfold sat at h; split at h <;> omega
+  have satge : ∀ n, 1 ≤ sat n → 1 ≤ n := by intro n h; unfold sat at h; split at h <;> omega
+  have kret : ∀ g, kindOf o = .ret g → o = .ret g := by
+    intro g h
+    cases o with
+    | ret t => simp only [kindOf] at h; cases h; rfl
+    | raised e => cases e <;> simp [kindOf] at h
+    | _ => simp [kindOf] at h
+  rcases hall with ⟨⟨hk, ho⟩, he⟩ | ⟨⟨hk, ho⟩, he⟩
+  · left; exact ⟨kret _ hk, satge _ (of_decide_eq_true ho), sat0 _ he⟩
+  · right; exact ⟨kret _ hk, sat0 _ ho, sat1 _ he⟩
+
+/-- the old shape (write that may fail midway, inside the try) is rejected by the analysis -/
+example : (behav root isFam [] (.try_ (.seq (.write .out false) (.ret "0"))
+    [(["Exception"], .seq (.write .err true) (.ret "1"))] (.atom "skip" true))).all cliAllowed = false := by decide
 
 /-! ## Non-vacuity: the semantics does let a wrapper fail, and the analysis is not trivially empty -/
 example : (escapes root isFam none read_docx).famAll = true := by decide
